@@ -482,7 +482,7 @@ theorem off_nil : ∀ k, PolyVerif.GbLayout.off [] k = 0
 /-- with no extra block moved up and no block left out, the C01 layout is the plain sequence of blocks -/
 theorem layout_plain (r : PolyVerif.GbLayout.GbRec) (ℓ : PolyVerif.GbLayout.RecLayout) (hc : ℓ.extraCuts = [])
     (h1 : ℓ.omitDefinition = false) (h2 : ℓ.omitAccession = false) (h3 : ℓ.omitVersion = false)
-    (h4 : ℓ.omitKeywords = false) (h5 : ℓ.omitSource = false) :
+    (h4 : ℓ.omitKeywords = false) (h5 : ℓ.omitSource = false) (h6 : ℓ.omitOrganism = false) :
     PolyVerif.GbLayout.layout r ℓ =
       [PolyVerif.GbLayout.locusLine r.locus ℓ]
       ++ PolyVerif.GbLayout.block ['D', 'E', 'F', 'I', 'N', 'I', 'T', 'I', 'O', 'N'] r.definition ℓ.definition
@@ -509,7 +509,7 @@ theorem layout_plain (r : PolyVerif.GbLayout.GbRec) (ℓ : PolyVerif.GbLayout.Re
   have haf : PolyVerif.GbLayout.extraAfterFeat r ℓ = [] := by
     simp [PolyVerif.GbLayout.extraAfterFeat, hc, off_nil, hcnt, PolyVerif.GbLayout.extrasLines]
   unfold PolyVerif.GbLayout.layout PolyVerif.GbLayout.mblock PolyVerif.GbLayout.sourceBlock
-  simp only [hs, hr, haf, h1, h2, h3, h4, h5, Bool.false_eq_true, false_and, if_false, List.append_nil, List.append_assoc,
+  simp only [hs, hr, haf, h1, h2, h3, h4, h5, h6, Bool.false_eq_true, false_and, if_false, List.append_nil, List.append_assoc,
     List.nil_append]
 
 
